@@ -48,7 +48,12 @@ Problems(req) ==
 
 \* a Sec-WebSocket-Protocol value that breaks the token-list grammar before any acceptable token:
 \* refused (RFC 6455 4.2.2 /1) by an upgrader that looks at the header, i.e. has a selector
-ProtoProblem(req, cfg) == req.protoBad # "" /\ cfg.hasSelector
+\* (likewise when the application's own ProtocolCustom / ExtensionCustom callback reports the header
+\* value as malformed; the callback only runs when the header is there)
+ProtoProblem(req, cfg) ==
+    \/ req.protoBad # "" /\ cfg.hasSelector
+    \/ cfg.custom = "refuse" /\ (req.protos # <<>> \/ req.protoBad # "")
+    \/ cfg.extMode = "customrefuse" /\ req.exts # <<>>
 
 KeyOpen(req) == req.key = "nonb64"
 
